@@ -12,6 +12,7 @@
   zoneinfo-wallclock-dst (Europe/Berlin, 2020-03-29T03:30 with TRIGGER -PT2H).
 -/
 import ICal.Lemmas.Alarm
+import ICal.Lemmas.BodiesAlarm
 namespace ICal.C14
 open ICal.Alarms
 
@@ -277,5 +278,25 @@ example : series (.aware 100) { trigger := some (.rel 0), rep := 2, duration := 
     = [.aware 100, .aware 160, .aware 220] := by decide
 example : ({ trigger := some (.rel (-14400)), rep := 2, duration := some 3600 } : VAlarm).triggers
     = ⟨[-14400, -10800, -7200], [], []⟩ := by decide
+
+/-! ## Regenerated function bodies = hand model
+
+  `ICal.Gen.BodiesAlarm.*` (tools/py2lean.py, from the current source on every run): `tools.is_date`,
+  `tools.is_datetime` (`isinstance(dt, date) and not isinstance(dt, datetime)` on the value type `Trig`),
+  `Alarms._add` (a timedelta is the model's `Int` of seconds, `td.seconds` its remainder mod 86400;
+  `to_datetime`, `normalize_pytz` are function parameters, the latter the identity on the model's
+  values) and `Alarms._repeat` (a generator: the list of what it yields; `for i in range(1, repeat + 1)`
+  as a fold over the range; `alarm.REPEAT`, `alarm.DURATION` are parameters). -/
+
+theorem body_is_date (t : Trig) : Gen.BodiesAlarm.is_date t = t.isDate := Bodies.is_date_eq t
+
+theorem body_is_datetime (t : Trig) : Gen.BodiesAlarm.is_datetime t = !t.isDate := Bodies.is_datetime_eq t
+
+theorem body_alarms_add (dt : Trig) (td : Int) : Gen.BodiesAlarm.Alarms_add dt td toDatetime id = add dt td :=
+  Bodies.Alarms_add_eq dt td
+
+theorem body_alarms_repeat (first : Trig) (a : VAlarm) :
+    Gen.BodiesAlarm.Alarms_repeat first a.rep a.duration toDatetime id = .ok (repeatTimes first a) :=
+  Bodies.Alarms_repeat_eq first a
 
 end ICal.C14
